@@ -236,6 +236,68 @@ def epub_bytes(doc):
                    "OEBPS/content.opf": opf, "OEBPS/c1.xhtml": xhtml})
 
 
+# ----------------------------------------------------------------------- rtf --
+RTF_FILLER = "Between the tables stands a paragraph that is long enough to count as running text of the document and not as part of a table row at all."
+
+
+def rtf_bytes(doc, row_sep="\n", cell_prefix="\\intbl "):
+    """rows `\\trowd...\\cell...\\row` joined by row_sep ('' = written back to back); tables separated by a long paragraph
+    (RTF has no table delimiter: adjacent rows ARE one table)"""
+    out = "{\\rtf1\\ansi\\deff0{\\fonttbl{\\f0 Arial;}}\\pard Intro paragraph\\par "
+    prev_table = False
+    for bi, b in enumerate(doc):
+        if not is_table(b):
+            out += "\\pard " + (RTF_FILLER + " " + tok(f"b{bi}")) + "\\par "
+            prev_table = False
+            continue
+        if prev_table:
+            out += "\\pard " + RTF_FILLER + "\\par "
+        rows = []
+        for ri, r in enumerate(b["rows"]):
+            defs = "".join(f"\\cellx{1500 * (i + 1)}" for i in range(len(r)))
+            cells = ""
+            for ci, c in enumerate(r):
+                pars = [par_text(it, f"b{bi}.r{ri}c{ci}i{ii}") for ii, it in enumerate(c) if not is_table(it)]
+                cells += cell_prefix + "\\par ".join(pars) + "\\cell"
+            rows.append(f"\\trowd\\trgaph108{defs}{cells}\\row")
+        out += row_sep.join(rows)
+        prev_table = True
+    return (out + "\\pard After\\par}").encode("ascii")
+
+
+def rtf_expected(doc):
+    return [[[ "\n".join(par_text(it, f"b{bi}.r{ri}c{ci}i{ii}") for ii, it in enumerate(c) if not is_table(it)) for ci, c in enumerate(r)]
+             for ri, r in enumerate(b["rows"])] for bi, b in enumerate(doc) if is_table(b)]
+
+
+RTF_LAYOUTS = (("\n", "\\intbl "), ("", "\\intbl "), ("\n", " "), ("", " "), ("\r\n", "\\pard\\intbl "), (" ", "\\intbl "))
+
+
+def rtf_shapes():
+    P = ["p"]
+    return [[T([[P]])], [T([[P, P]])], [T([[P], [P]])], [T([[P, P], [P, P]])], [T([[P, P], [P, P], [P, P]])], [T([[P], [P], [P], [P]])],
+            [T([[[], P], [P, []]])], [T([[["p", "p"], P]])], [T([[P]]), T([[P, P], [P, P]])], [T([[P], [P]]), "p", T([[P], [P]])], ["p", T([[P, P]])]]
+
+
+def search_rtf(clauses=("tables-in-document-order", "rows-and-cells", "cell-holds")):
+    from sharepoint2text.parsing.extractors.ms_legacy.rtf_extractor import read_rtf
+    for doc in rtf_shapes():
+        want = rtf_expected(doc)
+        for sep, pre in RTF_LAYOUTS:
+            data = rtf_bytes(doc, sep, pre)
+            res = list(read_rtf(io.BytesIO(data), "a.rtf"))[0]
+            tabs = list(res.iterate_tables())
+            got, dims = [t.get_table() for t in tabs], [t.get_dim() for t in tabs]
+            for cl in clauses:
+                bad, detail = clause_fails(cl, got, want)
+                if not bad and not dims_ok(got, dims):
+                    bad, detail = True, "get_dim() disagrees with get_table()"
+                if bad:
+                    return {"target": "rtf_extractor.py::read_rtf", "inputs": {"shape": doc, "row_separator": sep, "cell_prefix": pre, "rtf": data.decode("ascii")},
+                            "expected": want, "observed": got, "detail": detail}
+    return None
+
+
 # -------------------------------------------------------------------- sheets --
 SAMPLE_DT = datetime.datetime(2024, 1, 2, 3, 4, 5)
 
@@ -451,6 +513,17 @@ def run_shape(fname, shape):
 def replay_shape(obligation, shape):
     fname = obligation.split("/")[1].split("::")[0]
     clause = obligation.split("#")[-1]
+    if fname == "rtf_extractor.py" and isinstance(shape, dict) and "doc" in shape:
+        from sharepoint2text.parsing.extractors.ms_legacy.rtf_extractor import read_rtf
+        res = list(read_rtf(io.BytesIO(rtf_bytes(shape["doc"], shape.get("row_separator", "\n"), shape.get("cell_prefix", "\\intbl "))), "a.rtf"))[0]
+        tabs = list(res.iterate_tables())
+        got, dims, want = [t.get_table() for t in tabs], [t.get_dim() for t in tabs], rtf_expected(shape["doc"])
+        if "no-exception" in clause:
+            return False, "no exception natively", got, want
+        bad, detail = clause_fails(clause, got, want)
+        if not bad and not dims_ok(got, dims):
+            bad, detail = True, "get_dim() disagrees with get_table()"
+        return bad, detail, got, want
     try:
         got, want, dims = run_shape(fname, shape)
     except Exception as e:  # noqa
@@ -578,13 +651,16 @@ def find(req):
         bad, detail, got, want = replay_shape(ob, w["shape"])
         if bad:
             return {"reproduced": True, "target": ob, "inputs": {"shape": w["shape"]}, "expected": want, "observed": got, "detail": detail}
-        r = search_shapes(ob)
+        r = search_rtf() if "rtf_extractor.py" in ob else search_shapes(ob)
         if r:
             return dict(r, reproduced=True)
         return {"reproduced": False, "note": "the witness shape and the small native scope satisfy the clause natively", "shape": w["shape"], "observed": got}
     if "/bounded#" in ob:
-        r = search_shapes(ob)
+        r = search_rtf() if "rtf_extractor.py" in ob else search_shapes(ob)
         return dict(r, reproduced=True) if r else {"reproduced": False, "note": "small native scope satisfies the clause"}
+    if "rtf_extractor.py" in ob:
+        r = search_rtf()
+        return dict(r, reproduced=True) if r else {"reproduced": False, "note": "RTF tables (rows newline-separated / back to back, several layouts) agree natively"}
     if "pptx_extractor.py::_extract_table_from_graphic_frame" in ob:
         # symbolic-shape obligation (invariants / ensures): look for any clause of the grid spec failing natively
         for clause in ("rows-and-cells-are-the-direct-ones", "cell-holds-its-own-text", "tables-in-document-order"):
